@@ -101,7 +101,7 @@ struct Hist
     std::ostringstream os;
     os << "eval " << r << " " << dy(t);
     op(os.str());
-    V2 vel, acc;
+    V2 vel = V2::Constant(std::numeric_limits<double>::quiet_NaN()), acc = vel;   // NaN pre-fill
     V2 g = reg[r](t, vel, acc);
     std::printf("%ld eval", LINE);
     print_vec(g);
